@@ -370,9 +370,9 @@ def refutes(r, goal):
         return False
     if kind.startswith("defined:"):
         return bool(r.get("divzero"))
-    for n, v in r["goals"]:
+    for n, v, hv in r["goals"]:
         if n == goal["name"]:
-            return v == "F"
+            return v == "F" and hv == "T"
     return False
 
 
@@ -591,7 +591,7 @@ def symx_report(prop, tier, seed, index, results, feas, meta, known):
     goal_verdicts = {}
     for (name, pth, g, to), r in results:
         goal_verdicts.setdefault((name, g["name"]), set()).add(r["verdict"])
-    nval = int(os.environ.get("VERIF_VALIDATE_SAMPLES", "6"))
+    nval = int(os.environ.get("VERIF_VALIDATE_SAMPLES", "24"))
 
     def vjob(sc):
         eng = "cn" if sc["has_cn"] else ("f64" if sc["has_f64"] else None)
@@ -600,6 +600,7 @@ def symx_report(prop, tier, seed, index, results, feas, meta, known):
         return sc["name"], run_replay(sc["name"], eng, None, seed * 1000 + 17, nval, meta["rundir"])
 
     traces, mismatches, vsamples = 0, [], []
+    native_found = {}
     with cf.ThreadPoolExecutor(max_workers=JOBS) as ex:
         for name, runs in ex.map(vjob, index):
             for r in runs:
@@ -607,10 +608,29 @@ def symx_report(prop, tier, seed, index, results, feas, meta, known):
                     continue
                 traces += 1
                 if len(vsamples) < 3:
-                    vsamples.append({"scenario": name, "engine": r["engine"], "inputs": dict(r["inputs"]), "goals_true": sum(1 for _, v in r["goals"] if v == "T"), "goals_unknown": sum(1 for _, v in r["goals"] if v == "U")})
-                for gname, v in r["goals"]:
-                    if v == "F" and goal_verdicts.get((name, gname)) == {"unsat"}:
-                        mismatches.append({"scenario": name, "goal": gname, "inputs": dict(r["inputs"])})
+                    vsamples.append({"scenario": name, "engine": r["engine"], "inputs": dict(r["inputs"]), "goals_true": sum(1 for _, v, _h in r["goals"] if v == "T"), "goals_unknown": sum(1 for _, v, _h in r["goals"] if v == "U")})
+                for gname, v, hv in r["goals"]:
+                    if v == "F" and hv == "T":
+                        vs = goal_verdicts.get((name, gname), set())
+                        if vs == {"unsat"}:
+                            mismatches.append({"scenario": name, "goal": gname, "inputs": dict(r["inputs"])})
+                        elif "sat" not in vs and (name, gname) not in native_found:
+                            # the solver left this goal undecided on some path and a native run refutes it
+                            native_found[(name, gname)] = r
+    for (name, gname), r in native_found.items():
+        key = "%s::%s" % (name, gname)
+        entry = {"key": key, "scenario": name, "goal": gname, "kind": "goal", "paths": [], "solver": None, "model": {}, "reproduced": True,
+                 "replay": {"how": "native validation run on a goal the solver left undecided (not a solver counterexample)", "engine": r["engine"], "inputs": dict(r["inputs"]), "observed": {"panic": r["panic"], "goals": [x for x in r["goals"] if x[0] == gname]}}}
+        kf = known_match(known, prop, key)
+        if kf:
+            entry["known"] = kf["text"]
+            known_hits.append(entry)
+        else:
+            os.makedirs(rdir, exist_ok=True)
+            rp = os.path.join(rdir, "%s-%s.json" % (re.sub(r"[^A-Za-z0-9_.-]+", "_", name), hashlib.sha1(key.encode()).hexdigest()[:10]))
+            json.dump({"property": prop, "engine": "symx", "scenario": name, "goal": gname, "kind": "goal", "replay_engine": r["engine"], "inputs": dict(r["inputs"]), "how_found": entry["replay"]["how"]}, open(rp, "w"), indent=1)
+            entry["replay_file"] = rp
+            violations.append(entry)
     npaths = sum(1 for s in index for p in s["_paths"] if not p.get("variant"))
     infeasible = sum(1 for s in index for p in s["_paths"] if p.get("_feas") == "unsat" and not p.get("variant"))
     vac = [s["name"] for s in index if all(p.get("_feas") == "unsat" or p["status"] == "abort" for p in s["_paths"])]
